@@ -572,11 +572,11 @@ class PolygonTensor(PolytopeTensor):
     def angles(self) -> list[npt.NDArray[np.float64]]:
         """The interior angles of the polygon."""
         result = []
-        a = cast(SegmentTensor, self.edges[-1])
-        for b in self.edges:
-            b = cast(SegmentTensor, b)
-            result.append(angle(a.vertices[1], a.vertices[0], b.vertices[1]))
-            a = b
+        # vertex i with its two neighbours (the vertex axis is the last collection axis of the array)
+        n = self.shape[-2]
+        vertices = self.vertices
+        for i in range(n):
+            result.append(angle(vertices[i], vertices[i - 1], vertices[(i + 1) % n]))
 
         return result
 
